@@ -15,6 +15,8 @@ pub mod h;
 pub mod h2;
 #[cfg(kani)]
 pub mod h3;
+#[cfg(all(kani, feature = "ls_all"))]
+pub mod h4;
 #[cfg(all(kani, loom))]
 pub mod hs;
 #[cfg(kani)]
